@@ -115,6 +115,22 @@ CLAIMED = {
                 "i64 overflow of last+interval is an explicit panic outcome excluded by hypothesis.",
         "technique": "Coq proof (reference pacer laws + refinement by induction over the history) + bit-exact correspondence by vm_compute",
     },
+    "C03": {
+        "text": "Theorem C03_refines_state_machine (Props/C03.v): for every list of breaker rules (three strategies, "
+                "any min_request_amount / threshold / window geometry / retry timeout), every start time and every "
+                "history of entries (some rejected by other rules), completions of any in-flight entry and clock "
+                "advances, the observable trace of the model (admissions, block type, listener transitions in "
+                "order with previous state, state and retry time of every breaker after every command) is exactly "
+                "that of the abstract Closed/Open/Half-Open machines of Spec/C03Spec.v, which keep only the "
+                "completions since the last clear and count those inside the window directly (no ring). The ring "
+                "with clears is proved exact in Proofs/RingClearProofs.v. Model and Spec are both run against the "
+                "crate: model bit-for-bit (float ratio test via Flocq), Spec on the implementation's trace.",
+        "design_ref": "DESIGN.md §6 C03, Appendix A.3",
+        "note": "Trusted: Coq kernel + VM; stdlib classical axioms via Flocq; hand-written model validated by "
+                "differential runs (listener log, breaker states, retry timestamps); other rule families stand "
+                "behind an oracle slot that rejects chosen entries. Sequential semantics (C16 covers concurrency).",
+        "technique": "Coq proof (refinement to an abstract state machine; ring-with-clears invariant) + correspondence by vm_compute",
+    },
 }
 
 REASON_TODO = "not yet covered by the Coq development in this revision (planned, see DESIGN.md §6); no check is claimed"
